@@ -693,6 +693,9 @@ func isBlockNode(node Node) bool {
 		return true
 	case ForExpression:
 		return true
+	case CallTemplateExpression, TemplElementExpression:
+		// Written as @component(...), which is only recognised at the start of a line.
+		return true
 	case Element:
 		return n.IsBlockElement() || n.indentsChildren()
 	}
